@@ -55,7 +55,7 @@ def run(tier, seed):
     t0 = time.time()
     ob = {"engine": "smt", "harness": "s01_2_startup_orchestration", "encodes_files": FILES,
           "encodes": ["StateApplyManager::{init,load_index,load_snapshot,do_load_snapshot,load_log,load_complete}"],
-          "bound": "every last-applied index A and snapshot end E >= 1 (64-bit, A + 1 and E + 1 not wrapping), catalogue with 0 or 1 snapshot, snapshot of 2 records",
+          "bound": "every last-applied index A and snapshot end E >= 1 (64-bit, A + 1 and E + 1 not wrapping), catalogue with 0, 1 or 2 snapshots (the older one ending anywhere below the newest), snapshot of 2 records",
           "queries": 0, "solver_s": 0.0, "distinct": 0}
     try:
         prog = load_program(FILES + ENUM_FILES)
@@ -64,12 +64,17 @@ def run(tier, seed):
         install_actor_future(it)
         A, E = z3.BitVec("last_applied", 64), z3.BitVec("snapshot_end", 64)
         has_snap = z3.Bool("catalogue_has_snapshot")
+        has_older = z3.Bool("catalogue_has_an_older_snapshot")
+        E0 = z3.BitVec("older_snapshot_end", 64)
         events = []
 
         def index_send(interp, recv, args):
             msg = args[0]
             if isinstance(msg, Enum) and msg.variant == "LoadIndexInfo":
-                snaps = [Struct("SnapshotRange", {"id": 1, "end_index": E})] if interp.branch(has_snap) else []
+                snaps = [Struct("SnapshotRange", {"id": 2, "end_index": E})] if interp.branch(has_snap) else []
+                if snaps and interp.branch(has_older):
+                    # two compactions: the catalogue keeps the older snapshot in front of the newest (the snapshot manager hands out the newest one)
+                    snaps.insert(0, Struct("SnapshotRange", {"id": 1, "end_index": E0}))
                 recv.events.append(("index-loaded", len(snaps)))
                 return Ok(Ok(Enum("RaftIndexResponse", "RaftIndexInfo", {"raft_index": Struct("RaftIndexDto", {"snapshots": snaps}), "last_applied_log": A})))
             recv.events.append(("index-other", msg))
@@ -114,7 +119,7 @@ def run(tier, seed):
             it._invoke(init_fn, [actor, "ctx"], self_ty="StateApplyManager")
             return list(events)
         # a snapshot covers at least one log entry (raft indexes start at 1)
-        rng = [z3.ULT(A, (1 << 64) - 1), z3.ULT(E, (1 << 64) - 1), z3.UGE(E, 1)]
+        rng = [z3.ULT(A, (1 << 64) - 1), z3.ULT(E, (1 << 64) - 1), z3.UGE(E, 1), z3.UGE(E0, 1), z3.ULT(E0, E)]
         if EXTRA_ASSUME is not None:
             rng += EXTRA_ASSUME(A, E, has_snap)
         it.solver.push()
@@ -124,7 +129,7 @@ def run(tier, seed):
         s = z3.Solver()
         s.add(*rng)
         viol = None
-        covers = {"snapshot and log suffix": 0, "snapshot, nothing behind it": 0, "no snapshot": 0}
+        covers = {"snapshot and log suffix": 0, "snapshot, nothing behind it": 0, "no snapshot": 0, "two snapshots in the catalogue": 0}
         nq = 0
 
         def ask(pc, cond, msg, tag, evs):
@@ -139,6 +144,7 @@ def run(tier, seed):
                 m = s.model()
                 out = {"message": msg, "tags": [tag], "model": {"last_applied": m.eval(A, model_completion=True).as_long(), "snapshot_end": m.eval(E, model_completion=True).as_long(),
                                                                    "catalogue_has_snapshot": z3.is_true(m.eval(has_snap, model_completion=True)),
+                                                                   "older_snapshot_end": m.eval(E0, model_completion=True).as_long() if z3.is_true(m.eval(has_older, model_completion=True)) else None,
                                                                    "emissions": [str(e[0]) + ("(%s)" % ", ".join(str(m.eval(x, model_completion=True)) if isinstance(x, z3.ExprRef) else str(x) for x in e[1:]) if len(e) > 1 else "") for e in evs]}}
             s.pop()
             return out
@@ -180,6 +186,8 @@ def run(tier, seed):
                     viol = ask(pc, z3.BoolVal(True), "the load-complete notification is delivered before loading has finished", "load-complete-early", evs)
             if viol:
                 break
+            if any(e[0] == "index-loaded" and e[1] > 1 for e in evs):
+                covers["two snapshots in the catalogue"] += 1
             if snap and loads:
                 covers["snapshot and log suffix"] += 1
             if snap:
